@@ -61,10 +61,11 @@ const EDIT_KINDS: &[&str] = &[
     "merge_files",
     "rename_file",
     "broken_file",
+    "huge_comment",
 ];
 
 fn is_noise(kind: &str) -> bool {
-    matches!(kind, "comments" | "decoy_items" | "non_rs_file" | "target_decoy" | "git_decoy" | "broken_file")
+    matches!(kind, "comments" | "decoy_items" | "non_rs_file" | "target_decoy" | "git_decoy" | "broken_file" | "huge_comment")
 }
 
 const DECOY_RS: &str = "use serde::{Deserialize, Serialize};\n\n#[derive(Serialize, Deserialize)]\npub struct BuildArtifactType {\n    pub leaked: String,\n}\n\n#[tauri::command]\npub fn build_artifact_command(x: BuildArtifactType) -> BuildArtifactType {\n    x\n}\n";
@@ -85,6 +86,17 @@ fn apply_edit(r: &mut Rng, kind: &str, m: &Model, extras: &BTreeMap<String, Stri
                 };
                 m2.files[fi].items.insert(pos, Item::Raw(text));
             }
+        }
+        "huge_comment" => {
+            // a comment block larger than any plausible buffer, in the middle of a file
+            let fi = r.below(m2.files.len() as u64) as usize;
+            let pos = r.below(m2.files[fi].items.len() as u64 + 1) as usize;
+            let mut text = String::with_capacity(80_000);
+            let lines = r.range(900, 1400);
+            for k in 0..lines {
+                text.push_str(&format!("// {:04} lorem ipsum dolor sit amet consectetur adipiscing elit sed do\n", k));
+            }
+            m2.files[fi].items.insert(pos, Item::Raw(text));
         }
         "decoy_items" => {
             for _ in 0..r.range(1, 3) {
@@ -222,6 +234,7 @@ pub fn add_specials(r: &mut Rng, m: &mut Model, flags: &mut Vec<String>, allow_d
                 }],
                 rename_all: None,
                 serde: true,
+                qualified_derive: false,
             }));
             flags.push("dup_type".into());
         }
